@@ -1,11 +1,11 @@
 (* C12 — training feeds the estimator rows and labels of the same PSM, in any order.
    Statements only; proofs are in Proofs/FitP.v.  The model (Model/Fit.v) follows mokapot/model.py after
-   repo_fixes/F7-fit-unshuffled.patch; [fit_train_unpatched] is the loop before that repair.
+   repo_fixes/F7-fit-unshuffled.patch and repo_fixes/F16-refit-predict-proba.patch; [fit_train_unpatched] and
+   [fit_pre_scores_unpatched] are the code before these repairs.
 
    Oracles (Section variables of the model, quantified here):
      learn   : list (X * bool) -> G     estimator.fit on the (feature row, label) pairs, in the order handed
-     score   : G -> X -> Z              decision_function / second predict_proba column
-     coscore : G -> X -> Z              first predict_proba column
+     score   : G -> X -> Z              decision_function / class-1 column of predict_proba
      sigma   : list nat                 rng.permutation(arange(n)); contract: Permutation sigma (seq 0 n)
    Vocabulary (Proofs/FitP.v, Proofs/TdcP.v):
      sel idx l                   : the elements of l at the positions idx (numpy l[idx])
@@ -22,10 +22,10 @@ Open Scope Z_scope.
 (* Every list handed to estimator.fit consists, for one label vector L over the rows of the table, of the
    rows with non-zero label, each with its own features and its own label; the first label vector is the
    starting one, every later one is the label rule applied to the scores of the state fitted just before. *)
-Theorem C12_aligned : forall (X G : Type) (learn : list (X * bool) -> G) (score coscore : G -> X -> Z)
+Theorem C12_aligned : forall (X G : Type) (learn : list (X * bool) -> G) (score : G -> X -> Z)
     k xs targets start fp sigma shuffle thr mi ov trace res,
-  length start = length xs -> length xs <> 1%nat -> Permutation sigma (seq 0 (length xs)) ->
-  fit_train X G learn score coscore k xs targets start fp sigma shuffle thr mi ov = (trace, res) ->
+  length start = length xs -> Permutation sigma (seq 0 (length xs)) ->
+  fit_train X G learn score k xs targets start fp sigma shuffle thr mi ov = (trace, res) ->
   exists Ls : list (list Z),
     length Ls = length trace /\
     (forall L, nth_error Ls 0 = Some L -> L = start) /\
@@ -39,10 +39,10 @@ Print Assumptions C12_aligned.
 
 (* the same for Model.fit on a feature table, starting labels included (best feature, given direction or
    pretrained model): they too are the label rule applied to a score vector *)
-Theorem C12_aligned_fit : forall (G : Type) (learn : list (list Z * bool) -> G) (score coscore : G -> list Z -> Z)
+Theorem C12_aligned_fit : forall (G : Type) (learn : list (list Z * bool) -> G) (score : G -> list Z -> Z)
     k st names cols targets sigma shuffle thr mi ov trace res,
   Permutation sigma (seq 0 (length targets)) ->
-  fit_fit G learn score coscore true k st names cols targets sigma shuffle thr mi ov = (trace, res) ->
+  fit_fit G learn score true k st names cols targets sigma shuffle thr mi ov = (trace, res) ->
   trace = [] \/
   exists rows Ls,
     fit_rows cols (length targets) = Ok rows /\ length Ls = length trace /\
@@ -73,66 +73,64 @@ Print Assumptions C12_pairs_complete.
 (* for an estimator that does not depend on the order of its training list: the outcome (fitted state or
    error) is the same for any reordering of the rows, any two draws of the generator and either setting of
    the shuffle switch; the training lists are the same up to order *)
-Theorem C12_order_invariant : forall (X G : Type) (learn : list (X * bool) -> G) (score coscore : G -> X -> Z),
+Theorem C12_order_invariant : forall (X G : Type) (learn : list (X * bool) -> G) (score : G -> X -> Z),
   (forall l l', Permutation l l' -> learn l = learn l') ->
   forall k xs targets start xs' targets' start' fp sigma1 sh1 sigma2 sh2 thr mi ov,
   length targets = length xs -> length start = length xs ->
-  length targets' = length xs' -> length start' = length xs' -> length xs <> 1%nat ->
+  length targets' = length xs' -> length start' = length xs' ->
   Permutation (combine xs' (combine targets' start')) (combine xs (combine targets start)) ->
   Permutation sigma1 (seq 0 (length xs)) -> Permutation sigma2 (seq 0 (length xs)) ->
   forall tr1 r1 tr2 r2,
-  fit_train X G learn score coscore k xs' targets' start' fp sigma1 sh1 thr mi ov = (tr1, r1) ->
-  fit_train X G learn score coscore k xs targets start fp sigma2 sh2 thr mi ov = (tr2, r2) ->
+  fit_train X G learn score k xs' targets' start' fp sigma1 sh1 thr mi ov = (tr1, r1) ->
+  fit_train X G learn score k xs targets start fp sigma2 sh2 thr mi ov = (tr2, r2) ->
   r1 = r2 /\ Forall2 (@Permutation (X * bool)) tr1 tr2.
 Proof. exact fit_order_invariant_perm. Qed.
 Print Assumptions C12_order_invariant.
 
 (* Model.fit on a table whose rows are permuted by pi, starting labels recomputed on the permuted table *)
-Theorem C12_order_invariant_fit : forall (G : Type) (learn : list (list Z * bool) -> G) (score coscore : G -> list Z -> Z),
+Theorem C12_order_invariant_fit : forall (G : Type) (learn : list (list Z * bool) -> G) (score : G -> list Z -> Z),
   (forall l l', Permutation l l' -> learn l = learn l') ->
   forall k st names cols targets pi sigma1 sh1 sigma2 sh2 thr mi ov,
   table_wf (length targets) cols ->
   Permutation pi (seq 0 (length targets)) ->
   Permutation sigma1 (seq 0 (length targets)) -> Permutation sigma2 (seq 0 (length targets)) ->
   forall tr1 r1 tr2 r2,
-  fit_fit G learn score coscore true k st names (map (sel pi) cols) (sel pi targets) sigma1 sh1 thr mi ov = (tr1, r1) ->
-  fit_fit G learn score coscore true k st names cols targets sigma2 sh2 thr mi ov = (tr2, r2) ->
+  fit_fit G learn score true k st names (map (sel pi) cols) (sel pi targets) sigma1 sh1 thr mi ov = (tr1, r1) ->
+  fit_fit G learn score true k st names cols targets sigma2 sh2 thr mi ov = (tr2, r2) ->
   r1 = r2 /\ Forall2 (@Permutation (list Z * bool)) tr1 tr2.
 Proof. exact fit_fit_order_invariant. Qed.
 Print Assumptions C12_order_invariant_fit.
 
-(* predictions follow the rows (more than one row, or any table for decision_function estimators: see
-   C12_single_row for the exception) *)
-Theorem C12_predict_rows : forall X G (score coscore : G -> X -> Z) k g pi xs,
-  length xs <> 1%nat -> Permutation pi (seq 0 (length xs)) ->
-  fit_get_scores X G score coscore k g (sel pi xs)
-  = match fit_get_scores X G score coscore k g xs with Ok s => Ok (sel pi s) | Err e => Err e end.
+(* predictions follow the rows: one score per row whatever scoring method the estimator offers *)
+Theorem C12_predict_rows : forall X G (score : G -> X -> Z) k g pi xs,
+  fit_get_scores X G score k g (sel pi xs)
+  = match fit_get_scores X G score k g xs with Ok s => Ok (sel pi s) | Err e => Err e end.
 Proof. exact get_scores_sel. Qed.
 Print Assumptions C12_predict_rows.
 
 (* ---------- prediction takes features by stored name ---------- *)
-Theorem C12_by_name : forall (G : Type) (score coscore : G -> list Z -> Z)
+Theorem C12_by_name : forall (G : Type) (score : G -> list Z -> Z)
     trained stored k g names cols names' cols' n,
   NoDup names -> length names = length cols -> length names' = length cols' ->
   Permutation (combine names cols) (combine names' cols') ->
-  fit_decision G score coscore trained stored k g names' cols' n
-  = fit_decision G score coscore trained stored k g names cols n.
+  fit_decision G score trained stored k g names' cols' n
+  = fit_decision G score trained stored k g names cols n.
 Proof. exact decision_by_name. Qed.
 Print Assumptions C12_by_name.
 
-Theorem C12_wrong_features : forall (G : Type) (score coscore : G -> list Z -> Z) stored k g names cols n,
+Theorem C12_wrong_features : forall (G : Type) (score : G -> list Z -> Z) stored k g names cols n,
   (exists x, (In x names /\ ~ In x stored) \/ (In x stored /\ ~ In x names)) ->
-  fit_decision G score coscore true stored k g names cols n = Err EValue.
+  fit_decision G score true stored k g names cols n = Err EValue.
 Proof. exact decision_wrong_set. Qed.
 Print Assumptions C12_wrong_features.
 
-Theorem C12_selects_by_name : forall (G : Type) (score coscore : G -> list Z -> Z) stored k g names cols n,
+Theorem C12_selects_by_name : forall (G : Type) (score : G -> list Z -> Z) stored k g names cols n,
   NoDup names -> length names = length cols ->
   (forall s, In s stored <-> In s names) ->
   exists selc, Forall2 (fun s c => In (s, c) (combine names cols)) stored selc /\
-    fit_decision G score coscore true stored k g names cols n
+    fit_decision G score true stored k g names cols n
     = match fit_rows selc n with
-      | Ok rows => fit_get_scores (list Z) G score coscore k g rows
+      | Ok rows => fit_get_scores (list Z) G score k g rows
       | Err e => Err e
       end.
 Proof. exact decision_selects. Qed.
@@ -151,6 +149,14 @@ Theorem C12_repaired_on_witness :
                        [(0%nat, true); (1%nat, true); (2%nat, true); (3%nat, false)]].
 Proof. exact patched_not_refuted. Qed.
 Print Assumptions C12_repaired_on_witness.
+
+(* before the F16 repair: re-fitting a trained model whose estimator has a two-column predict_proba is
+   rejected (ValueError) for every non-empty table, because the flattened matrix has 2n entries *)
+Theorem C12_refit_proba_unpatched_rejected : forall G (score coscore : G -> list Z -> Z) g0 rows targets thr,
+  rows <> [] -> length targets = length rows ->
+  update_labels true (fit_pre_scores_unpatched G score coscore FitProba2 g0 rows) targets thr = Err EValue.
+Proof. exact pre_proba2_unpatched_rejected. Qed.
+Print Assumptions C12_refit_proba_unpatched_rejected.
 
 (* ---------- non-vacuity ---------- *)
 (* the order-independent recording estimator of the harness satisfies the hypothesis of C12_order_invariant *)
@@ -192,9 +198,9 @@ Example C12_example_invariant :
   = Ok (1, 2, Some true, Some 1%nat, Ok [12; 11; 16; 6], Ok [6; 16; 11; 12]).
 Proof. vm_compute. reflexivity. Qed.
 
-(* odd corners of _get_scores that the theorems exclude: a single row *)
+(* one row in, one score out, for the three kinds of estimator *)
 Example C12_single_row :
-  fit_get_scores Z unit (fun _ x => x) (fun _ x => - x) FitProba2 tt [7] = Ok [-7; 7] /\
-  fit_get_scores Z unit (fun _ x => x) (fun _ x => - x) FitProba1 tt [7] = Err ERuntime /\
-  fit_get_scores Z unit (fun _ x => x) (fun _ x => - x) FitDF tt [7] = Ok [7].
+  fit_get_scores Z unit (fun _ x => x) FitProba2 tt [7] = Ok [7] /\
+  fit_get_scores Z unit (fun _ x => x) FitProba1 tt [7] = Ok [7] /\
+  fit_get_scores Z unit (fun _ x => x) FitDF tt [7] = Ok [7].
 Proof. repeat split. Qed.
